@@ -290,8 +290,19 @@ def get_symbol_name(symbol):
     return symbol
 
 
+def has_comment(node):
+    """Check whether one of the children of ``node`` is a comment. The parser
+    keeps a comment inside an s-expression as a child, which shifts the
+    positions of the arguments that follow it."""
+    return not node.is_leaf() and any(
+        c.is_leaf() and c.data.startswith(';') for c in node)
+
+
 def is_operator_app(node, name):
-    return node.has_ident() and node.get_ident() == name
+    # (with a comment among the children the arguments are not where the
+    # callers expect them: such a node is left to the generic mutators)
+    return node.has_ident() and node.get_ident() == name \
+        and not has_comment(node)
 
 
 def is_indexed_operator(node, name, index_count=1):
@@ -307,7 +318,8 @@ def is_indexed_operator(node, name, index_count=1):
 
 
 def is_indexed_operator_app(node, name, index_count=1):
-    return len(node) > 0 and is_indexed_operator(node[0], name, index_count)
+    return len(node) > 0 and is_indexed_operator(
+        node[0], name, index_count) and not has_comment(node)
 
 
 def has_nary_operator(node):
@@ -351,7 +363,7 @@ def is_const(node):
 
 def is_eq(node):
     """Checks whether ``node`` is an equality."""
-    return node.has_ident() and node.get_ident() == '='
+    return is_operator_app(node, '=')
 
 
 def get_default_constants(sort):
@@ -696,12 +708,12 @@ def is_bv_comp(node):
 
 def is_bv_not(node):
     """Checks whether ``node`` is a bit-vector bit-wise negation."""
-    return node.has_ident() and node.get_ident() == 'bvnot'
+    return is_operator_app(node, 'bvnot')
 
 
 def is_bv_neg(node):
     """Checks whether ``node`` is a bit-vector negation."""
-    return node.has_ident() and node.get_ident() == 'bvneg'
+    return is_operator_app(node, 'bvneg')
 
 
 def get_bv_width(node):  # noqa: C901
@@ -797,11 +809,13 @@ def get_bv_constant_value(node):
 
 
 def is_dt_constructor(node):
-    return node.has_ident() and node.get_ident() in __datatypes_constructors
+    return node.has_ident() and node.get_ident(
+    ) in __datatypes_constructors and not has_comment(node)
 
 
 def is_dt_selector(node):
-    return node.has_ident() and node.get_ident() in __datatypes_selectors
+    return node.has_ident() and node.get_ident(
+    ) in __datatypes_selectors and not has_comment(node)
 
 
 def get_dt_selector(node):
